@@ -36,7 +36,7 @@ man = {
     "engines": [
         {"name": "lean4-proof+correspondence", "path": "/verif/lean, /verif/harness, /verif/extract, /verif/tools/check.py",
          "serves_properties": [c["property_id"] for c in checks],
-         "kind_free_text": "Lean 4 theorems over hand-written executable models; models tied to /repo by a regenerated fact file (go/ast extractor -> Gonuts/Gen/Facts.lean, equalities proved in Gonuts/Tie) and by a differential correspondence harness (real Go code in-process vs compiled Lean driver) with model-free property monitors"}
+         "kind_free_text": "Lean 4 theorems over hand-written executable models; models tied to /repo by a regenerated fact file (go/ast extractor -> Gonuts/Gen/Facts.lean, equalities proved in Gonuts/Tie), by a Go->Lean translator for the pure arithmetic / decision functions incl. the NUT-11 / NUT-14 verifiers (extract/translate.go -> Gonuts/Gen/Code.lean, regenerated on every run; Gonuts/Tie/Code.lean proves the regenerated definitions equal to the model for all inputs) and by a differential correspondence harness (real Go code in-process vs compiled Lean driver) with model-free property monitors"}
     ],
     "checks": checks,
     "not_applicable": na,
